@@ -638,6 +638,16 @@ func TestC26Regressions(t *testing.T) {
 		// epoch-1 data and the genesis configuration, b2/b3 the announcement of b2.
 		c26Run(t, c26Fixed(4, "free", [][4]int{{0, 10, 0, 0}, {1, 11, 1, 1}, {2, 12, 0, 0}, {1, 11, 0, 0}, {4, 12, 0, 0}}), map[int]int{5: 0})
 	})
+	t.Run("epoch-10-announcement-survives-finalisation-of-epoch-1-and-restart", func(t *testing.T) {
+		// one chain, announcements for the epochs 1,2,3,6,8,9,10; b1 is finalised after b12 was imported
+		// (which persists epoch 1 and deletes the stored announcements of the epochs <= 1), then b13 is
+		// imported and the EpochState is rebuilt from the database: b13 must still get the epoch-10 data
+		// announced by b12 (pinned tree: the deletion of "nextepochdata1" also removed "nextepochdata10:..").
+		c := c26Fixed(2, "runtime", [][4]int{{0, 1, 1, 1}, {1, 2, 0, 0}, {2, 3, 1, 1}, {3, 4, 0, 0}, {4, 6, 1, 1}, {5, 11, 1, 1}, {6, 12, 0, 0},
+			{7, 15, 1, 1}, {8, 16, 0, 0}, {9, 17, 1, 1}, {10, 18, 0, 0}, {11, 19, 1, 1}, {12, 20, 0, 0}})
+		c.restartAfter = 13
+		c26Run(t, c, map[int]int{12: 0})
+	})
 	t.Run("config-fallback-to-earlier-epoch-of-own-fork", func(t *testing.T) {
 		// own fork: b1 announces config for epoch 1, b3 (epoch 1) announces nothing;
 		// other fork: b2 (epoch 1) announces config for epoch 2. GetConfigData(2, b3) = config of b1.
